@@ -374,7 +374,7 @@ func init() {
 	reg("(*math/rand.Rand).Int63n", bounded(64))
 	reg("(*math/rand.Rand).Int31n", bounded(32))
 	reg("math/rand.Float64", func(w *World, t *Thread, fr *frame, fn *ssa.Function, args []Value) Value {
-		return Opaque{"random float"}
+		return w.newFUnit(w.tt.Fresh("mrandf", 1).name)
 	})
 	reg("math/rand.Seed", nop)
 	reg("math/rand.Shuffle", nop)
